@@ -248,6 +248,19 @@ def plan(tier: str, seed: int) -> list[dict[str, Any]]:
             cases.append({"k": "pad", "shape": list(shp), "pw": pw if isinstance(pw, int)
                           else [list(p) if isinstance(p, tuple) else p for p in
                                 (pw if isinstance(pw, list) else list(pw))], "d": d})
+    # three operands: the whole space of small shape triples (which operand carries the unit
+    # or missing axis, and in which position, must not matter)
+    small = [(), (1,), (2,), (3,), (1, 1), (2, 1), (1, 3), (2, 3), (0,), (1, 0)]
+    tri = list(itertools.product(small, repeat=3))
+    for s1, s2, s3 in (tri if thorough else rng.sample(tri, 250)):
+        cases.append({"k": "where", "c": ["arr", "bool", list(s1)],
+                      "x": ["arr", "float64", list(s2)], "y": ["arr", "int32", list(s3)]})
+    for s1, s2, s3 in (tri if thorough else rng.sample(tri, 250)):
+        cases.append({"k": "advindex", "shape": [4, 5, 6],
+                      "ishapes": [list(s1), list(s2), list(s3)], "idt": "int64"})
+    for s1, s2 in itertools.product(small, repeat=2):
+        cases.append({"k": "advindex", "shape": [4, 5, 6], "ishapes": [list(s1), list(s2)],
+                      "idt": "int32"})
     # whole small spaces instead of hand-picked lists: pad widths, roll shifts, new shapes
     cap2 = 100000 if thorough else 150
     pw_space: list[tuple[list[int], Any]] = []
